@@ -10,7 +10,12 @@ NOT_SHOWN = {
          "Circle, Cylinder, CylinderSegment: need Bulirsch cel/el3 (Legendre elliptic integral) theory, absent from Mathlib v4.33",
          "all of the above are checked against numerical quadrature of the defining integral by the oracle (rel. 2e-6 outside, 2e-4 inside)"],
  "C13": ["Cuboid = mesh = tetrahedra; Cylinder = sum of segments; partition additivity of magnets; Polyline -> Circle: equalities between different closed forms, oracle only"],
- "C14": ["flux / circulation laws for general surfaces and loops and for the elliptic-integral classes: quadrature oracle only",
+ "C14": ["NO integral-form statement (flux through a closed surface, circulation around a loop) is proved for any class, not even over boxes: proved are only the pointwise local forms "
+         "div B = 0 / curl H = 0 for Dipole (r != 0) and Sphere (off its surface), div H = 0 for one straight segment of the UNMASKED kernel, and the Sphere interface conditions "
+         "(sphere_interface_model). The passage local => integral (Gauss / Stokes; C^1 regularity — the theorems give existence of the partial derivatives at a point) is assumed",
+         "Ampere's law with non-zero threading current (Circle, closed Polyline), curl H = 0 for closed polylines off the wire, and every statement for Cuboid, Cylinder, CylinderSegment, "
+         "Tetrahedron, TriangularMesh, Circle and collections: flux / circulation quadrature oracle only",
+         "segment_B_div_free is about q -> mu0 * segmentH q, not about the masked wrapper (not differentiable across the 1e-15 on-line mask)",
          "Mathlib has the divergence theorem for boxes only and no Stokes theorem for general loops"],
 }["C14"]
 
